@@ -33,42 +33,45 @@ Proof. eexists. split; vm_compute; reflexivity. Qed.
 Lemma list_neq a b : list_eqb a b = false -> a <> b.
 Proof. intros H E. apply list_eqb_spec in E. congruence. Qed.
 
-(* payload shorter than the ID3v1 search window (here: an empty file): the save with the DEFAULT v1=1 takes the b"TAG"
-   inside the frame data it has just written for an ID3v1 tag and overwrites the last 128 bytes of its own ID3v2 tag;
-   the independent reader does not get the frames back (precondition 131 <= payload of id3f_wf is necessary) *)
-Lemma short_payload_refuted : exists f fr o f' fr',
-  frames_ok (o_v2 o) fr = true /\ id3f_parse f = Ok (mkI None [] None) /\ v1_hyp [] o /\
-  id3f_save f fr o = Ok f' /\ id3f_load f' = Ok (Some fr') /\ fr' <> fr.
+(* REGRESSION (was a genuine defect of /repo, fixed by "TAG inside the ID3v2 tag itself was taken for an ID3v1 tag"):
+   saving to an EMPTY file a frame with b"TAG" 128 bytes before its end, default v1=1, padding 0 -- the frames are read
+   back; with v1=0 nothing is truncated *)
+Lemma short_payload_regression :
+  id3f_wf [] = true /\ frames_ok 4 ex_priv = true /\
+  (exists f', id3f_save [] ex_priv (ex_opts 1 (id3f_cb_const 0)) = Ok f' /\ id3f_load f' = Ok (Some ex_priv) /\ zlen f' = 10 + zlen ex_priv) /\
+  (exists f', id3f_save [] ex_priv (ex_opts 0 (id3f_cb_const 0)) = Ok f' /\ id3f_load f' = Ok (Some ex_priv) /\ zlen f' = 10 + zlen ex_priv) /\
+  (exists f', id3f_save [] ex_priv (ex_opts 0 (id3f_cb_const 0)) = Ok f' /\ id3f_delete f' = Ok []).
 Proof.
-  exists [], ex_priv, (ex_opts 1 (id3f_cb_const 0)).
-  eexists. eexists.
   split; [vm_compute; reflexivity|]. split; [vm_compute; reflexivity|].
-  split; [intros _; vm_compute; reflexivity|].
-  split; [vm_compute; reflexivity|]. split; [vm_compute; reflexivity|].
-  apply list_neq. vm_compute. reflexivity.
-Qed.
-(* ... and with v1=0 (REMOVE) the same save truncates the ID3v2 tag it has just written *)
-Lemma short_payload_truncates : exists f fr o f',
-  frames_ok (o_v2 o) fr = true /\ id3f_save f fr o = Ok f' /\ zlen f' < 10 + zlen fr /\ id3f_parse f' = Raise EMutagen.
-Proof.
-  exists [], ex_priv, (ex_opts 0 (id3f_cb_const 0)). eexists.
-  split; [vm_compute; reflexivity|]. split; [vm_compute; reflexivity|]. split; vm_compute; reflexivity.
+  split; [eexists; split; [vm_compute; reflexivity|]; split; vm_compute; reflexivity|].
+  split; [eexists; split; [vm_compute; reflexivity|]; split; vm_compute; reflexivity|].
+  eexists; split; vm_compute; reflexivity.
 Qed.
 
-(* b"TAG" 128 bytes before the end of a payload that ends in an APEv2 footer (b"APETAGEX" 32 bytes before the end):
-   by the format rule there is no ID3v1 tag, mutagen's find_id3v1 takes the bytes for one, and a save with the default
-   v1=1 overwrites the last 128 bytes of the payload, APEv2 footer included (precondition find_id3v1 mid = None of
-   id3f_wf is necessary) *)
+(* REGRESSION (was a genuine defect, fixed by "TAG inside a trailing APEv2 tag was taken for an ID3v1 tag"): b"TAG" 128
+   bytes before the end of a payload that ends in an APEv2 footer: the file is well-formed, a save with the default
+   v1=1 leaves the payload (APEv2 footer included) byte-identical *)
 Definition ex_ape_tail : list Z :=
   repeat 1 40 ++ M_TAG ++ repeat 1 93 ++ M_APE ++ repeat 0 24.                    (* 168 bytes, TAG at -128, APETAGEX at -32 *)
 Definition ex_ape_file : list Z := ex_audio ++ ex_ape_tail.
-Lemma tag_in_apev2_refuted : exists f s fr o f' s',
-  id3f_parse f = Ok s /\ i_v1 s = None /\ 131 <= zlen (i_mid s) /\ frames_ok (o_v2 o) fr = true /\
-  id3f_save f fr o = Ok f' /\ id3f_parse f' = Ok s' /\
-  i_mid s' <> i_mid s /\ zdrop (zlen f' - 32) f' <> zdrop (zlen f - 32) f.
+Lemma tag_in_apev2_regression : id3f_wf ex_ape_file = true /\ mid_of ex_ape_file = ex_ape_file /\
+  exists f', id3f_save ex_ape_file ex_frames (ex_opts 1 id3f_cb_default) = Ok f' /\ mid_of f' = ex_ape_file /\
+             zdrop (zlen f' - 32) f' = zdrop (zlen ex_ape_file - 32) ex_ape_file.
 Proof.
-  exists ex_ape_file. eexists. exists ex_frames, (ex_opts 1 id3f_cb_default). eexists. eexists.
-  split; [vm_compute; reflexivity|]. split; [reflexivity|]. split; [vm_compute; discriminate|].
+  split; [vm_compute; reflexivity|]. split; [vm_compute; reflexivity|].
+  eexists. split; [vm_compute; reflexivity|]. split; vm_compute; reflexivity.
+Qed.
+
+(* the hypothesis "at least 3 payload bytes in front of an ID3v1 tag" (part of v1_fits) is necessary: a file that is
+   nothing but an ID3v1 tag; the new ID3v2 tag ends with the bytes b"TAG" (padding 0); find_id3v1 takes the first
+   b"TAG" of its 128+3 byte window, which lies inside the ID3v2 tag, gives up, and v1=2 appends a SECOND ID3v1 tag *)
+Definition ex_priv_tail : list Z := [80; 82; 73; 86; 0; 0; 0; 5; 0; 0; 111; 0] ++ M_TAG.   (* PRIV owner "o" data "TAG" *)
+Lemma short_mid_refuted : exists f s fr o f' s',
+  id3f_parse f = Ok s /\ i_mid s = [] /\ i_v1 s = Some ex_v1 /\ frames_ok (o_v2 o) fr = true /\
+  id3f_save f fr o = Ok f' /\ id3f_parse f' = Ok s' /\ i_mid s' <> i_mid s /\ zlen f' = zlen fr + 10 + 256.
+Proof.
+  exists ex_v1. eexists. exists ex_priv_tail, (ex_opts 2 (id3f_cb_const 0)). eexists. eexists.
+  split; [vm_compute; reflexivity|]. split; [reflexivity|]. split; [reflexivity|].
   split; [vm_compute; reflexivity|]. split; [vm_compute; reflexivity|]. split; [vm_compute; reflexivity|].
-  split; apply list_neq; vm_compute; reflexivity.
+  split; [apply list_neq; vm_compute; reflexivity|vm_compute; reflexivity].
 Qed.
